@@ -30,6 +30,7 @@ def items(tier, seed):
     out += [("sound-" + r, {"reg": r}) for r in sorted(R.SOUND)]
     out += [("complete-" + r, {"reg": r}) for r in ("BDS10", "BDS17", "BDS20", "BDS30", "BDS40", "BDS45", "BDS50", "BDS60")]
     out += [("is50or60", {})]
+    out += [("purity-" + r, {"reg": r}) for r in sorted(R.SOUND)]
     return out
 
 
@@ -177,6 +178,42 @@ def run_item(item):
     df = fr["DF"].int()
     conc = lambda m: {"msg": fr.concrete(m)}
     commb = z3.Or(df == 20, df == 21)
+
+    if name.startswith("purity-"):
+        # the predicates are functions of the message only: called on two messages in a row (in either order of the
+        # headers / payloads the solver likes), each answer equals the predicate's own formula for that message
+        reg = prm["reg"]
+        modn, fn = R.PREDICATE[reg]
+        path = "pyModeS.decoder.bds.%s.%s" % (modn, fn)
+        item.encoded(path)
+        # the second message carries the SAME 56-bit MB field under a different header (DF, altitude / identity code,
+        # parity): the path decisions on the payload coincide, so the joint exploration stays small, and it is the case
+        # in which a verdict remembered per payload would be wrong
+        fr2 = H.Frame.custom([H.Field("b_DF", 5), H.Field("b_HDR", 27), fr["MB"], H.Field("b_AP", 24)], prefix="b_", case="mixed")
+        item.declare(fr2)
+        item.assume(commb, z3.Or(fr2["DF"].int() == 20, fr2["DF"].int() == 21))
+        F1 = pred_term(item, pm, reg, fr)
+        F2 = pred_term(item, pm, reg, fr2)
+        f = getattr(getattr(pm.decoder.bds, modn), fn)
+        f = getattr(f, "__symx_summary__", f)
+
+        def two():
+            return f(fr.msg), f(fr2.msg)
+        for p in item.explore(two):
+            if p.kind != "ret":
+                claim = False
+            else:
+                a, b = p.value
+                claim = z3.And(core.tobool(a) == F1, core.tobool(b) == F2)
+
+            def replay(model):
+                m1, m2 = fr.concrete(model), fr2.concrete(model)
+                seq = H.fresh_driver("call_sequence", [[path, [m1]], [path, [m2]]])
+                alone = H.fresh_driver("call_sequence", [[path, [m2]]])
+                bad = seq[0] != "ret" or alone[0] != "ret" or seq[1][1] != alone[1][0]
+                return bad, {"calls": [m1, m2]}, "%s(%s) after %s(%s) = %r, alone = %r" % (fn, m2, fn, m1, seq[1][1:], alone[1]), seq
+            item.prove("purity", p.pc, claim, replay)
+        return
 
     if name.startswith("sound-") or name.startswith("complete-"):
         reg = prm["reg"]
